@@ -14,7 +14,8 @@ RULE = ("A small 3-iteration nifty.cl.optimize_kl run (2 mirrored sample pairs, 
         "{before, after, partial} the child is killed; a fresh child calls optimize_kl(resume=True) with the same "
         "arguments. Oracle: it must finish and return samples and mean byte-identical to the uninterrupted run.")
 LEVEL_TEXT = ("Fault enumeration over all Python-visible file-system operations of one small run per configuration "
-              "(save_strategy all/latest, operator export via h5py on/off); exhaustive in the operation index in the "
+              "(save_strategy all/latest, operator export via h5py on/off, per-iteration schedules of fresh_stochasticity / "
+              "n_samples / constants over 4 iterations); exhaustive in the operation index in the "
               "thorough tier, seeded stratified subset in the quick tier.")
 LEVEL_NOTE = ("Python-level operations of one small run; torn writes are flushed prefixes of one write call; kill = "
               "os._exit(137) in the child (unflushed buffers lost, like SIGKILL); comm=None (no MPI).")
@@ -25,10 +26,13 @@ CONFIGS = {
     "all": dict(save_strategy="all", export=False, seed=7),
     "latest": dict(save_strategy="latest", export=False, seed=7),
     "all_h5": dict(save_strategy="all", export=True, seed=9),
+    # per-iteration option schedules: stochasticity re-used over two consecutive iterations (the resumed run must
+    # re-create the same seed sequences), sample number and constants changing with the iteration
+    "schedules": dict(save_strategy="all", export=False, seed=5, n_iter=4, schedules=True),
 }
 
 
-def scenario(odir, resume, save_strategy, export, seed):
+def scenario(odir, resume, save_strategy, export, seed, n_iter=3, schedules=False):
     """runs in the child process"""
     import numpy as np
 
@@ -46,7 +50,13 @@ def scenario(odir, resume, save_strategy, export, seed):
     ift.random.push_sseq_from_seed(seed)
     pos0 = ift.MultiField.from_dict({"a": ift.makeField(sp, np.array([0.1, -0.2, 0.3, 0.0])),
                                      "b": ift.makeField(sp, np.array([0.0, 0.1, -0.1, 0.2]))})
-    sl, mean = ift.optimize_kl(lh, 3, 2, mini, ic, output_directory=odir, resume=resume,
+    kw = {}
+    nsamp = 2
+    if schedules:
+        kw["fresh_stochasticity"] = lambda i: i not in (1, 2)
+        kw["constants"] = lambda i: ["b"] if i == 0 else []
+        nsamp = lambda i: 2 if i < 3 else 1     # noqa: E731
+    sl, mean = ift.optimize_kl(lh, n_iter, nsamp, mini, ic, output_directory=odir, resume=resume, **kw,
                                save_strategy=save_strategy, return_final_position=True,
                                initial_position=pos0,
                                plot_energy_history=False, plot_minisanity_history=False,
@@ -90,7 +100,7 @@ def known_window(cfgname, log, k, when):
     return None
 
 
-ENUM = CrashEnum("props.c25_cl_resume:scenario", CONFIGS, quick_limit=24, known_window=known_window)
+ENUM = CrashEnum("props.c25_cl_resume:scenario", CONFIGS, quick_limit=20, known_window=known_window)
 PREPARE = ENUM.prepare
 
 SUBS = [
